@@ -45,6 +45,10 @@ type upload struct {
 const c20Src, c20Dst = "/queue/incoming/src", "/queue/dest"
 const c20Third0 = "/queue/third"
 
+// c20Twin: the directory of a second upload that lists the SAME file names with
+// other contents (a re-upload, another architecture's build of the same version)
+const c20Twin = "/queue/incoming/twin"
+
 func renderUploadCtl(kind, source string, v mVersion, files []upFile, extra ...upFile) []byte {
 	var sb strings.Builder
 	if kind == "dsc" {
@@ -159,6 +163,22 @@ func genUpload(t *rt.Tape, r *rt.Run, srcDir, tag string, allowOdd bool) *upload
 		u.Files[i].Escapes = false
 		r.Probe("control-file-lists-itself")
 	}
+	if n > 0 && t.Bool(1, 20, "up.tmpname") {
+		// a listed file called like another listed file (or like the control file)
+		// plus ".tmp", and listed BEFORE it: names are the uploader's business
+		k := t.Draw(n+1, "up.tmpname.of")
+		other := u.CtlName
+		if k < n {
+			other = u.Files[k].Base
+		}
+		f := upFile{Listed: other + ".tmp", Base: other + ".tmp", SrcPath: path.Join(srcDir, other+".tmp"), Content: []byte("a file of its own that happens to be called " + other + ".tmp")}
+		at := 0
+		if k < n {
+			at = k
+		}
+		u.Files = append(u.Files[:at], append([]upFile{f}, u.Files[at:]...)...)
+		r.Probe("listed-name-is-another-listed-name-plus-tmp")
+	}
 	if t.Bool(1, 6, "up.checksum-only") {
 		// an entry that only the checksum fields know: nothing says such a name is
 		// a file of the upload, and wherever it points outside the two directories
@@ -267,6 +287,14 @@ func c20Exec(r *rt.Run, w *c20Work, planIdx int, fault simos.Fault, tag string) 
 	}
 	if w.Second == "Move" {
 		fs.MkdirAllQuiet(c20Third0)
+	}
+	if w.Second == "CopyTwin" {
+		fs.PutQuiet(path.Join(c20Twin, u.CtlName), u.Ctl)
+		for _, f := range u.Files {
+			if f.Listed != u.CtlName {
+				fs.PutQuiet(path.Join(c20Twin, f.Base), []byte("twin content of "+f.Base))
+			}
+		}
 	}
 	if w.U2 != nil {
 		fs.PutQuiet(path.Join(w.U2.SrcDir, w.U2.CtlName), w.U2.Ctl)
@@ -380,6 +408,22 @@ func c20Exec(r *rt.Run, w *c20Work, planIdx int, fault simos.Fault, tag string) 
 				err2 = h.Remove()
 			case "Move":
 				err2 = h.Move(c20Third)
+			case "CopyTwin":
+				// another upload with the same file names arrives in the same destination
+				tp := path.Join(c20Twin, u.CtlName)
+				if u.Kind == "dsc" {
+					h2, e := control.ParseDscFile(tp)
+					if e == nil {
+						e = h2.Copy(dst)
+					}
+					err2 = e
+				} else {
+					h2, e := control.ParseChangesFile(tp)
+					if e == nil {
+						e = h2.Copy(dst)
+					}
+					err2 = e
+				}
 			}
 			second2 = true
 		}
@@ -465,7 +509,7 @@ func c20Exec(r *rt.Run, w *c20Work, planIdx int, fault simos.Fault, tag string) 
 			if p == "" || p == "/" {
 				continue
 			}
-			if !(p == u.SrcDir || path.Dir(p) == u.SrcDir) && !(p == dst || path.Dir(p) == dst) && !(w.Second == "Move" && (p == c20Third0 || path.Dir(p) == c20Third0)) {
+			if !(p == u.SrcDir || path.Dir(p) == u.SrcDir) && !(p == dst || path.Dir(p) == dst) && !(w.Second == "Move" && (p == c20Third0 || path.Dir(p) == c20Third0)) && !(w.Second == "CopyTwin" && (p == c20Twin || path.Dir(p) == c20Twin)) {
 				what := "touched"
 				switch op.Op {
 				case "open", "read":
@@ -560,6 +604,14 @@ func c20Exec(r *rt.Run, w *c20Work, planIdx int, fault simos.Fault, tag string) 
 				d, _, ok := fs.Peek(path.Join(where, f.Base))
 				_, _, inDst := fs.Peek(path.Join(dst, f.Base))
 				switch w.Second {
+				case "CopyTwin":
+					want := []byte("twin content of " + f.Base)
+					if f.Base == u.CtlName {
+						want = u.Ctl
+					}
+					if !ok || !bytes.Equal(d, want) {
+						r.Violate("C20/second-operation", key+"/then-CopyTwin/destination", "[%s] a second upload listing the same names was copied into %s: %s there is missing or not the second upload's file", tag, dst, f.Base)
+					}
 				case "Remove":
 					if inDst {
 						r.Violate("C20/second-operation", key+"/then-Remove/not-removed", "[%s] %s into %s succeeded, then Remove on the same handle returned nil, but %s is still in %s", tag, w.Op, dst, f.Base, dst)
@@ -678,6 +730,10 @@ func runC20(r *rt.Run, tier string) {
 	}
 	if w.Op != "Remove" && w.DstState == "dir" && !w.SameDir && !w.Hardlinks && !w.TwoMounts && !anyOdd(w.U) && t.Bool(1, 5, "c20.second") {
 		w.Second = []string{"Remove", "Move"}[t.Draw(2, "c20.secondop")]
+		if w.Op == "Copy" && t.Bool(1, 3, "c20.secondop-twin") {
+			w.Second = "CopyTwin"
+			r.Probe("second-upload-with-the-same-file-names")
+		}
 	}
 	faulty := t.Bool(2, 3, "config.faulty")
 	r.Sticky = t.Draw(6, "sched.sticky")
@@ -796,5 +852,5 @@ func init() {
 		},
 		Assumptions: []string{"crash = death of the calling process (completed calls persist); power-loss semantics are not modelled because the library never calls fsync and the property does not promise power-fail durability", "after a crash only the every-instant invariants are demanded; the atomic-failure clause is demanded when an error is returned", "a listed name must resolve to a file directly in the control file's own directory: a subdirectory of it is outside (strict reading of the statement)"},
 	})
-	propProbes["C20"] = []string{"upload-with-dozens-of-files", "name-listed-only-in-checksum-fields", "second-operation-on-the-same-handle", "destination-holds-hard-links-to-the-source-files", "destination-is-the-source-directory", "traversal-name", "absolute-name", "name-with-subdirectory", "control-file-lists-itself", "file-needs-several-read-write-calls", "uploader-crashed", "EXDEV-on-rename", "fault-on-control-file-create", "fault-on-control-file-write", "fault-on-control-file-close", "fault-on-control-file-rename", "fault-on-first-file", "fault-on-last-file", "crash-between-last-file-and-control-file", "watcher-ran-between-create-and-first-write-of-control-file"}
+	propProbes["C20"] = []string{"listed-name-is-another-listed-name-plus-tmp", "second-upload-with-the-same-file-names", "upload-with-dozens-of-files", "name-listed-only-in-checksum-fields", "second-operation-on-the-same-handle", "destination-holds-hard-links-to-the-source-files", "destination-is-the-source-directory", "traversal-name", "absolute-name", "name-with-subdirectory", "control-file-lists-itself", "file-needs-several-read-write-calls", "uploader-crashed", "EXDEV-on-rename", "fault-on-control-file-create", "fault-on-control-file-write", "fault-on-control-file-close", "fault-on-control-file-rename", "fault-on-first-file", "fault-on-last-file", "crash-between-last-file-and-control-file", "watcher-ran-between-create-and-first-write-of-control-file"}
 }
